@@ -254,8 +254,16 @@ impl DateFilter for ds::YearRange {
                 curr_year + 1
             } else {
                 // 5. time is in the range but doesn't match the step
-                let round_up = |x: u16, d: u16| d * x.div_ceil(d); // get the first multiple of `d` greater than `x`.
-                range.start() + round_up(curr_year - range.start(), self.step)
+                let round_up = |x: u16, d: u16| d.checked_mul(x.div_ceil(d)); // get the first multiple of `d` greater than `x`.
+
+                let Some(next_year) = round_up(curr_year - range.start(), self.step)
+                    .and_then(|offset| range.start().checked_add(offset))
+                else {
+                    // The next matching year is out of bounds
+                    return Some(DATE_END.date());
+                };
+
+                next_year
             }
         };
 
